@@ -266,6 +266,8 @@ int a_str_catv(a_str *ctx, char const *fmt, va_list va)
         res = vsnprintf(ptr, mem, fmt, va);
     }
     if (res > 0) { ctx->num_ += (a_size)res; }
+    /* a failed conversion may already have written over the terminator */
+    else if (res < 0 && ctx->num_ < ctx->mem_) { ctx->ptr_[ctx->num_] = 0; }
     return res;
 }
 
